@@ -111,6 +111,25 @@ pub fn both(v: &[u8]) -> String {
         Err(_) => "LI-ERR".into(),
     }
 }
+/// C13, second sentence: the id of an accepted locale versus what LanguageIdentifier reads from the part of
+/// the text before the first singleton (one-character) subtag
+pub fn loc_prefix(v: &[u8]) -> String {
+    match Locale::from_bytes(v) {
+        Ok(l) => {
+            let mut pre: Vec<&[u8]> = Vec::new();
+            for t in v.split(|c| *c == b'-' || *c == b'_') {
+                if t.len() == 1 { break; }
+                pre.push(t);
+            }
+            let joined: Vec<u8> = pre.join(&b'-');
+            match LanguageIdentifier::from_bytes(&joined) {
+                Ok(li) => if li == l.id && li.to_string() == l.id.to_string() { "PRE-SAME".into() } else { "PRE-DIFF".into() },
+                Err(_) => "PRE-ERR".into(),
+            }
+        }
+        Err(_) => "LOC-ERR".into(),
+    }
+}
 pub fn loc_conv(v: &[u8]) -> String {
     match Locale::from_bytes(v) {
         Ok(l) => {
@@ -347,6 +366,7 @@ fn parse_ops(out: &mut Out, s: &[u8]) {
     out.case("locale", &[s], || locale(s));
     out.case("loc_canonicalize", &[s], || loc_canonicalize(s));
     out.case("both", &[s], || both(s));
+    out.case("loc_prefix", &[s], || loc_prefix(s));
 }
 fn value_ops(out: &mut Out, s: &[u8]) {
     out.case("loc_roundtrip", &[s], || loc_roundtrip(s));
